@@ -7,6 +7,16 @@
 // decision function written from the statement, and the node's observable
 // effects (client socket, upstream exchange log, query-log and statistics
 // recorders).
+//
+// The access settings in force are the last ones the API accepted.  Besides
+// accepted replacements the history therefore contains updates the API may
+// reject (duplicates, intersecting lists, entries that are no address, CIDR or
+// ClientID, undecodable documents), unrelated settings writes, in-place
+// reconfigurations (what saving the DNS settings does) and process restarts.
+// Every "configuration modified" callback does what home's
+// (*configuration).write does — it asks the components for their settings
+// again and writes them out as YAML — and a restart builds the new node from
+// the text the system itself wrote last, never from the harness's model.
 package c03
 
 import (
@@ -15,6 +25,7 @@ import (
 	"net/http"
 	"net/netip"
 	"os"
+	"sort"
 	"strings"
 	"testing"
 	"time"
@@ -27,6 +38,7 @@ import (
 	"github.com/AdguardTeam/urlfilter"
 	"github.com/AdguardTeam/urlfilter/filterlist"
 	"github.com/miekg/dns"
+	"gopkg.in/yaml.v3"
 	"pgregory.net/rapid"
 )
 
@@ -39,7 +51,7 @@ type Lists struct {
 
 // Op is one generated operation.
 type Op struct {
-	Kind     string `json:"k"` // query | set
+	Kind     string `json:"k"` // query | set | restart | reconfigure | write
 	Proto    string `json:"proto,omitempty"`
 	Addr     string `json:"addr,omitempty"`
 	ClientID string `json:"cid,omitempty"` // as the client spells it (any case)
@@ -47,6 +59,13 @@ type Op struct {
 	Name     string `json:"name,omitempty"`
 	Qtype    uint16 `json:"qt,omitempty"`
 	Lists    *Lists `json:"lists,omitempty"`
+	// Bad names how the generator spoiled the lists of a set ("" = valid by
+	// construction): dup | intersect | unparsable | undecodable.
+	Bad string `json:"bad,omitempty"`
+	// Raw is the request body of an undecodable set.
+	Raw string `json:"raw,omitempty"`
+	// Write is the settings endpoint of an unrelated write.
+	Write string `json:"write,omitempty"`
 }
 
 // Scenario is one case.
@@ -66,6 +85,17 @@ var (
 	qnames   = []string{"blocked.test", "sub.blocked.test", "ads.test", "a.ads.test", "x.wild.test", "wild.test", "x.example", "exact.test", "a.exact.test", "fine.test", "ok.example", "a.test2", "BLOCKED.test", "Ads.TEST"}
 	protos   = []string{"udp", "tcp", "tls", "https", "quic", "dnscrypt"}
 	qtypes   = []uint16{dns.TypeA, dns.TypeAAAA, dns.TypeTXT}
+
+	// junkEntries can denote neither an address, nor a CIDR, nor a ClientID (a
+	// ClientID is one host-name label).
+	junkEntries = []string{"10.9.9.0/33", "192.0.2.300", "2001:db8::/129", "not a client", "bad_id!", "a.b", "-x-", ""}
+	// rawBodies are request bodies that are no document of three string lists.
+	rawBodies = []string{``, `{`, `{"allowed_clients":["192.0.2.1"],"disallowed_clients":[`, `{"allowed_clients":"192.0.2.1","disallowed_clients":[],"blocked_hosts":[]}`, `{"allowed_clients":[],"disallowed_clients":[7],"blocked_hosts":[]}`, `[]`}
+	// writeKinds are settings writes that have nothing to do with the access
+	// lists (and re-send the values already in force, so that the answers to
+	// admitted requests stay what they are); each makes the component fire its
+	// "configuration modified" callback.
+	writeKinds = []string{"dns_protection", "dns_blocking_mode", "filtering_config"}
 )
 
 func genLists(t *rapid.T) Lists {
@@ -117,6 +147,60 @@ func genLists(t *rapid.T) Lists {
 	return l
 }
 
+// genBadSet draws an update the API has a reason to reject: valid lists
+// spoiled in one of the ways a user can get them wrong.
+func genBadSet(t *rapid.T) Op {
+	op := Op{Kind: "set", Bad: rapid.SampledFrom([]string{"dup", "intersect", "unparsable", "unparsable", "undecodable"}).Draw(t, "bad_kind")}
+	if op.Bad == "undecodable" {
+		op.Raw = rapid.SampledFrom(rawBodies).Draw(t, "raw_body")
+		return op
+	}
+	l := genLists(t)
+	insert := func(list []string, e string) []string {
+		i := rapid.IntRange(0, len(list)).Draw(t, "bad_pos")
+		out := append([]string{}, list[:i]...)
+		out = append(out, e)
+		return append(out, list[i:]...)
+	}
+	switch op.Bad {
+	case "dup":
+		var cands []*[]string
+		for _, p := range []*[]string{&l.Allowed, &l.Disallowed, &l.Hosts} {
+			if len(*p) > 0 {
+				cands = append(cands, p)
+			}
+		}
+		if len(cands) == 0 {
+			l.Disallowed = []string{rapid.SampledFrom(listIPs).Draw(t, "dup_ip")}
+			cands = append(cands, &l.Disallowed)
+		}
+		p := cands[rapid.IntRange(0, len(cands)-1).Draw(t, "dup_list")]
+		*p = insert(*p, (*p)[rapid.IntRange(0, len(*p)-1).Draw(t, "dup_of")])
+	case "intersect":
+		var e string
+		switch {
+		case len(l.Allowed) > 0:
+			e = l.Allowed[rapid.IntRange(0, len(l.Allowed)-1).Draw(t, "isect_of")]
+			l.Disallowed = insert(l.Disallowed, e)
+		case len(l.Disallowed) > 0:
+			e = l.Disallowed[rapid.IntRange(0, len(l.Disallowed)-1).Draw(t, "isect_of")]
+			l.Allowed = insert(l.Allowed, e)
+		default:
+			e = rapid.SampledFrom(listIPs).Draw(t, "isect_ip")
+			l.Allowed, l.Disallowed = []string{e}, []string{e}
+		}
+	default:
+		e := rapid.SampledFrom(junkEntries).Draw(t, "junk")
+		if rapid.Bool().Draw(t, "junk_in_allowed") {
+			l.Allowed = insert(l.Allowed, e)
+		} else {
+			l.Disallowed = insert(l.Disallowed, e)
+		}
+	}
+	op.Lists = &l
+	return op
+}
+
 func flipCase(t *rapid.T, s string) string {
 	if rapid.IntRange(0, 2).Draw(t, "flip") != 0 {
 		return s
@@ -132,9 +216,23 @@ func Gen(t *rapid.T, tier string) any {
 		maxOps = 80
 	}
 	for i, n := 0, rapid.IntRange(4, maxOps).Draw(t, "n_ops"); i < n; i++ {
-		if rapid.IntRange(0, 9).Draw(t, "is_set") == 0 {
+		switch rapid.IntRange(0, 19).Draw(t, "op_kind") {
+		case 0, 1:
+			if rapid.IntRange(0, 2).Draw(t, "bad_set") == 0 {
+				sc.Ops = append(sc.Ops, genBadSet(t))
+				continue
+			}
 			l := genLists(t)
 			sc.Ops = append(sc.Ops, Op{Kind: "set", Lists: &l})
+			continue
+		case 2:
+			sc.Ops = append(sc.Ops, Op{Kind: "restart"})
+			continue
+		case 3:
+			sc.Ops = append(sc.Ops, Op{Kind: "reconfigure"})
+			continue
+		case 4:
+			sc.Ops = append(sc.Ops, Op{Kind: "write", Write: rapid.SampledFrom(writeKinds).Draw(t, "write_kind")})
 			continue
 		}
 		op := Op{Kind: "query",
@@ -253,11 +351,117 @@ func (a *access) decide(addr netip.Addr, clientID, host string, qt uint16) decis
 // ---- run ---------------------------------------------------------------------
 
 type runner struct {
-	c  *kernel.Ctx
-	n  *dnsnode.Node
-	ac *access
+	c   *kernel.Ctx
+	n   *dnsnode.Node
+	dir string
+	up  *env.Upstream
+	ac  *access
+	// accepted are the access settings in force: the initial ones, then the
+	// last ones the API accepted.
+	accepted Lists
+	// disk is the DNS section of the configuration file: the initial one, then
+	// whatever the system wrote at its last "configuration modified" callback.
+	disk       []byte
+	diskWrites int
+	diskErr    error
+	// setWrites is diskWrites right after the last accepted update (-1: none).
+	setWrites int
+	// for reach probes
+	sinceRestart, sinceRejected bool
 	// first decision seen for an "open" input, to assert consistency
 	openSeen map[string]bool
+}
+
+// onConfigModified does what home's onConfigModified -> (*configuration).write
+// does on every "configuration modified" callback of any component: it asks
+// the components for their current settings again, at this very moment, and
+// writes the result out (the file write itself is C14's subject; the text is
+// kept in memory).
+func (r *runner) onConfigModified() {
+	n := r.n
+	if n == nil || n.Server == nil {
+		return
+	}
+	n.Filter.WriteDiskConfig(&filtering.Config{})
+	dc := dnsforward.Config{}
+	n.Server.WriteDiskConfig(&dc)
+	b, err := yaml.Marshal(&dc)
+	if err != nil {
+		r.diskErr = fmt.Errorf("harness: encoding the configuration: %w", err)
+		return
+	}
+	r.disk = b
+	r.diskWrites++
+}
+
+// start builds a node from the configuration text in r.disk.
+func (r *runner) start() error {
+	dc := dnsforward.Config{}
+	if err := yaml.Unmarshal(r.disk, &dc); err != nil {
+		return fmt.Errorf("harness: decoding the configuration: %w\n%s", err, r.disk)
+	}
+	cfg := &dnsnode.Config{Dir: r.dir, ListServer: env.NewListServer(), Upstream: r.up, UpTimeout: 2 * time.Second, ServerName: serverName, OnModified: r.onConfigModified}
+	cfg.Filtering = filtering.Config{BlockingMode: filtering.BlockingModeDefault, ProtectionEnabled: true, FilteringEnabled: true, FiltersUpdateIntervalHours: 24}
+	cfg.DNS = dc
+	r.n = nil
+	n, err := dnsnode.New(cfg)
+	if err != nil {
+		return err
+	}
+	r.n = n
+	kernel.Wait()
+	return nil
+}
+
+func (r *runner) stop() {
+	if r.n != nil {
+		r.n.Close()
+		r.n = nil
+		kernel.Wait()
+	}
+}
+
+func sameSet(a, b []string) bool {
+	a, b = append([]string{}, a...), append([]string{}, b...)
+	sort.Strings(a)
+	sort.Strings(b)
+	return fmt.Sprint(a) == fmt.Sprint(b) && len(a) == len(b)
+}
+
+// checkReported compares what GET /control/access/list reports with the
+// settings in force.  An empty blocked-hosts list may stand for built-in
+// defaults, which the statement does not fix: the reported hosts are compared
+// only when the accepted list is non-empty.
+func (r *runner) checkReported(class, what string) error {
+	code, body, err := r.n.Mux.Do("GET", "/control/access/list", nil)
+	if err != nil {
+		if hp, ok := err.(*env.HandlerPanic); ok {
+			return kernel.Violationf("api-panic", "%v", hp)
+		}
+		return err
+	}
+	var got struct {
+		A []string `json:"allowed_clients"`
+		D []string `json:"disallowed_clients"`
+		H []string `json:"blocked_hosts"`
+	}
+	if code != http.StatusOK || json.Unmarshal(body, &got) != nil {
+		return fmt.Errorf("harness: access/list -> %d %s", code, body)
+	}
+	hostsOK := sameSet(got.H, r.accepted.Hosts)
+	if len(r.accepted.Hosts) == 0 {
+		hostsOK = true
+		if len(got.H) != 0 {
+			r.c.Probe("default_blocked_hosts_reported")
+		}
+	}
+	ok := sameSet(got.A, r.accepted.Allowed) && sameSet(got.D, r.accepted.Disallowed) && hostsOK
+	r.c.Eventf("list %s -> allowed=%v disallowed=%v hosts=%v ok=%v", what, got.A, got.D, got.H, ok)
+	if !ok {
+		return kernel.Violationf(class, "%s the access settings in force are allowed=%v disallowed=%v blocked_hosts=%v, but GET /control/access/list reports allowed=%v disallowed=%v blocked_hosts=%v",
+			what, r.accepted.Allowed, r.accepted.Disallowed, r.accepted.Hosts, got.A, got.D, got.H)
+	}
+	return nil
 }
 
 func (r *runner) query(op Op) error {
@@ -314,6 +518,12 @@ func (r *runner) query(op Op) error {
 	}
 	if d.excluded {
 		r.c.Probe("excluded_request")
+		if r.sinceRestart {
+			r.c.Probe("excluded_after_restart")
+		}
+		if r.sinceRejected {
+			r.c.Probe("excluded_after_rejected_update")
+		}
 		r.c.Probe("excluded_" + op.Proto)
 		if d.why == "name on the blocked-hosts list" {
 			r.c.Probe("excluded_by_name")
@@ -340,6 +550,12 @@ func (r *runner) query(op Op) error {
 		return nil
 	}
 	r.c.Probe("served_request")
+	if r.sinceRestart {
+		r.c.Probe("served_after_restart")
+	}
+	if r.sinceRejected {
+		r.c.Probe("served_after_rejected_update")
+	}
 	if cid != "" {
 		r.c.Probe("served_with_clientid")
 	}
@@ -352,7 +568,7 @@ func (r *runner) query(op Op) error {
 	return nil
 }
 
-func (r *runner) set(l Lists) error {
+func listsBody(l Lists) []byte {
 	orEmpty := func(s []string) []string {
 		if s == nil {
 			return []string{}
@@ -360,6 +576,21 @@ func (r *runner) set(l Lists) error {
 		return s
 	}
 	b, _ := json.Marshal(map[string]any{"allowed_clients": orEmpty(l.Allowed), "disallowed_clients": orEmpty(l.Disallowed), "blocked_hosts": orEmpty(l.Hosts)})
+	return b
+}
+
+// set sends one update.  The API's answer decides: 200 makes the lists of the
+// request the settings in force, a 4xx answer leaves the previous ones in
+// force.  Lists that are valid by construction must be accepted; for the
+// spoiled ones either answer is taken (the statement does not say which
+// documents are acceptable), an undecodable document cannot be accepted.
+func (r *runner) set(op Op) error {
+	var b []byte
+	if op.Lists != nil {
+		b = listsBody(*op.Lists)
+	} else {
+		b = []byte(op.Raw)
+	}
 	code, resp, err := r.n.Mux.Do("POST", "/control/access/set", b)
 	if err != nil {
 		if hp, ok := err.(*env.HandlerPanic); ok {
@@ -367,16 +598,109 @@ func (r *runner) set(l Lists) error {
 		}
 		return err
 	}
-	if code != http.StatusOK {
-		return fmt.Errorf("harness: access/set %s -> %d %s", b, code, resp)
+	kernel.Wait()
+	if r.diskErr != nil {
+		return r.diskErr
+	}
+	r.c.Eventf("set bad=%q %s -> %d", op.Bad, b, code)
+	switch {
+	case code == http.StatusOK && op.Lists == nil:
+		return kernel.Violationf("undecodable-update-accepted", "POST /control/access/set with body %q, which is no document of three string lists, was answered 200", b)
+	case code == http.StatusOK:
+		l := *op.Lists
+		r.ac.close()
+		if r.ac, err = newAccess(l); err != nil {
+			return err
+		}
+		r.accepted = l
+		r.openSeen = map[string]bool{}
+		r.setWrites = r.diskWrites
+		r.sinceRejected = false
+		r.c.Fault("live_access_update")
+		if op.Bad != "" {
+			r.c.Probe("invalid_update_accepted")
+		}
+		return r.checkReported("accepted-update-not-reported", fmt.Sprintf("after the accepted update %s", b))
+	case code >= 400 && code <= 499 && op.Bad != "":
+		r.sinceRejected = true
+		r.c.Fault("rejected_access_update")
+		r.c.Probe("invalid_" + op.Bad + "_rejected")
+		return r.checkReported("rejected-update-visible", fmt.Sprintf("after the rejected (%d) update %s", code, b))
+	}
+	return fmt.Errorf("harness: access/set %s -> %d %s", b, code, resp)
+}
+
+// restart ends the process and starts a new one from the configuration the
+// system wrote last.
+func (r *runner) restart() error {
+	if r.setWrites >= 0 && r.setWrites == r.diskWrites {
+		r.c.Probe("restart_right_after_update")
+	}
+	if r.sinceRejected {
+		r.c.Probe("restart_after_rejected_update")
+	}
+	r.stop()
+	r.c.Eventf("restart writes=%d", r.diskWrites)
+	if err := r.start(); err != nil {
+		return kernel.Violationf("restart-failed", "the node does not start from the configuration it wrote itself: %v\n%s", err, r.disk)
+	}
+	r.sinceRestart = true
+	r.c.Fault("restart_from_written_config")
+	return r.checkReported("restart-changed-settings", "after a restart from the written configuration")
+}
+
+// reconfigure rebuilds the running server from its own current configuration,
+// as saving DNS settings that need a restart of the server does.
+func (r *runner) reconfigure() error {
+	if r.sinceRejected {
+		r.c.Probe("reconfigure_after_rejected_update")
+	}
+	err := r.n.ReconfigureNoListen()
+	kernel.Wait()
+	r.c.SimTime += 100 * time.Millisecond
+	r.c.Eventf("reconfigure -> err=%v", err != nil)
+	if err != nil {
+		return kernel.Violationf("reconfigure-failed", "reconfiguring the server with its own current settings fails and leaves it stopped: %v", err)
+	}
+	r.c.Fault("reconfigure")
+	return r.checkReported("reconfigure-changed-settings", "after a reconfiguration")
+}
+
+// write saves settings that are not the access lists.
+func (r *runner) write(kind string) error {
+	path, body := "/control/dns_config", `{"protection_enabled":true}`
+	switch kind {
+	case "dns_protection":
+	case "dns_blocking_mode":
+		body = `{"blocking_mode":"default"}`
+	case "filtering_config":
+		path, body = "/control/filtering/config", `{"enabled":true,"interval":24}`
+	default:
+		return fmt.Errorf("harness: unknown write %q", kind)
+	}
+	before := r.diskWrites
+	code, resp, err := r.n.Mux.Do("POST", path, []byte(body))
+	if err != nil {
+		if hp, ok := err.(*env.HandlerPanic); ok {
+			return kernel.Violationf("api-panic", "%v", hp)
+		}
+		return err
 	}
 	kernel.Wait()
-	r.ac.close()
-	r.ac, err = newAccess(l)
-	r.openSeen = map[string]bool{}
-	r.c.Fault("live_access_update")
-	r.c.Eventf("set allowed=%v disallowed=%v hosts=%v", l.Allowed, l.Disallowed, l.Hosts)
-	return err
+	if r.diskErr != nil {
+		return r.diskErr
+	}
+	if code != http.StatusOK {
+		return fmt.Errorf("harness: %s %s -> %d %s", path, body, code, resp)
+	}
+	r.c.Eventf("write %s -> %d, %d configuration write(s)", kind, code, r.diskWrites-before)
+	if r.diskWrites > before {
+		r.c.Fault("unrelated_config_write")
+		if r.sinceRejected {
+			r.c.Probe("write_after_rejected_update")
+		}
+	}
+	return r.checkReported("reported-settings-mismatch", "after an unrelated settings write")
 }
 
 // Run executes one scenario.
@@ -390,31 +714,47 @@ func Run(t *testing.T, scAny any, c *kernel.Ctx) error {
 	defer os.RemoveAll(dir)
 	return kernel.Bubble(t, func() error {
 		up := &env.Upstream{Addr: "sim-upstream:53", Answer: env.DefaultAnswer, Latency: 2 * time.Millisecond}
-		cfg := &dnsnode.Config{Dir: dir, ListServer: env.NewListServer(), Upstream: up, UpTimeout: 2 * time.Second, ServerName: serverName}
-		cfg.Filtering = filtering.Config{BlockingMode: filtering.BlockingModeDefault, ProtectionEnabled: true, FilteringEnabled: true, FiltersUpdateIntervalHours: 24}
-		cfg.DNS = dnsforward.Config{AllowedClients: sc.Initial.Allowed, DisallowedClients: sc.Initial.Disallowed, BlockedHosts: sc.Initial.Hosts}
+		r := &runner{c: c, dir: dir, up: up, accepted: sc.Initial, setWrites: -1, openSeen: map[string]bool{}}
+		// The configuration file the first process starts from.
+		var err error
+		r.disk, err = yaml.Marshal(&dnsforward.Config{AllowedClients: sc.Initial.Allowed, DisallowedClients: sc.Initial.Disallowed, BlockedHosts: sc.Initial.Hosts})
+		if err != nil {
+			return fmt.Errorf("harness: encoding the initial configuration: %w", err)
+		}
 		if len(sc.Initial.Hosts) == 0 {
 			// An empty list in the configuration means the built-in defaults;
 			// they cover names this workload never asks for.
 			c.Probe("default_blocked_hosts")
 		}
-		n, err := dnsnode.New(cfg)
-		if err != nil {
+		if err = r.start(); err != nil {
 			return err
 		}
-		defer n.Close()
-		r := &runner{c: c, n: n, openSeen: map[string]bool{}}
+		defer func() { r.stop() }()
 		if r.ac, err = newAccess(sc.Initial); err != nil {
 			return err
 		}
 		defer func() { r.ac.close() }()
-		kernel.Wait()
+		if err = r.checkReported("initial-settings-not-reported", "after the first start"); err != nil {
+			return err
+		}
 		for i, op := range sc.Ops {
 			var err error
-			if op.Kind == "set" {
-				err = r.set(*op.Lists)
-			} else {
+			switch op.Kind {
+			case "set":
+				if op.Lists == nil && op.Bad == "" {
+					return fmt.Errorf("harness: set without lists")
+				}
+				err = r.set(op)
+			case "restart":
+				err = r.restart()
+			case "reconfigure":
+				err = r.reconfigure()
+			case "write":
+				err = r.write(op.Write)
+			case "query":
 				err = r.query(op)
+			default:
+				err = fmt.Errorf("harness: unknown op %q", op.Kind)
 			}
 			if err != nil {
 				if v, ok := err.(*kernel.Violation); ok {
@@ -432,7 +772,7 @@ func Run(t *testing.T, scAny any, c *kernel.Ctx) error {
 var Prop = &kernel.Property{
 	ID:    "C03",
 	Level: "exploration",
-	Rule: "seeded histories (rapid): allowed / disallowed lists mixing IPv4/IPv6 addresses, overlapping CIDRs (/0 .. /128) and ClientIDs, blocked-host patterns; set at start and replaced live through POST /control/access/set; requests over udp/tcp/tls/https/quic/dnscrypt from 11 source addresses (incl. zoned IPv6 and 4-in-6) with ClientIDs given by SNI label or DoH path in any letter case; " +
+	Rule: "seeded histories (rapid): allowed / disallowed lists mixing IPv4/IPv6 addresses, overlapping CIDRs (/0 .. /128) and ClientIDs, blocked-host patterns; set at start and replaced live through POST /control/access/set; updates the API may reject (duplicates, intersecting lists, entries that are no address / CIDR / ClientID, undecodable documents: the answer decides which lists are in force), unrelated settings writes, in-place reconfigurations and restarts from the configuration text the system itself wrote at its last configuration-modified callback, all mixed with the requests; after each of them GET /control/access/list is compared with the lists in force; requests over udp/tcp/tls/https/quic/dnscrypt from 11 source addresses (incl. zoned IPv6 and 4-in-6) with ClientIDs given by SNI label or DoH path in any letter case; " +
 		"non-trivial = at least one excluded and one served request were executed in the case; distinct = distinct scenario digests",
 	Gen: Gen,
 	New: func() any { return &Scenario{} },
@@ -440,9 +780,12 @@ var Prop = &kernel.Property{
 	NonTrivial: func(_ any, c *kernel.Ctx) bool {
 		return c.Probes["excluded_request"] > 0 && c.Probes["served_request"] > 0
 	},
-	Real:        []string{"internal/dnsforward (HandleBefore, accessManager, ClientID extraction, access/set handler, pipeline, query-log/statistics glue)", "dnsproxy request path (handleBefore, respond*)", "internal/filtering", "internal/client.Storage"},
-	Stub:        []string{"upstream resolver (exchange log)", "client sockets of all six transports (fake conns / writers; UDP judged by the response message)", "query log and statistics (recorders)", "listeners / TLS handshakes (server name placed in the fake connection state)"},
+	Real:        []string{"internal/dnsforward (HandleBefore, accessManager, ClientID extraction, access/set and access/list handlers, WriteDiskConfig, Prepare / reconfiguration, pipeline, query-log/statistics glue)", "dnsproxy request path (handleBefore, respond*)", "internal/filtering", "internal/client.Storage"},
+	Stub:        []string{"upstream resolver (exchange log)", "client sockets of all six transports (fake conns / writers; UDP judged by the response message)", "query log and statistics (recorders)", "listeners / TLS handshakes (server name placed in the fake connection state)", "configuration file (YAML of the WriteDiskConfig snapshot taken inside every configuration-modified callback, as home's config.write takes it; a restart loads that text)", "Server.Reconfigure (VerifReconfigureNoListen: the same steps without opening listeners)"},
 	Assumptions: []string{"blocked-host patterns are matched by urlfilter (trusted) against the lower-cased name", "4-in-6 sources against plain IPv4 entries and zoned IPv6 sources against un-zoned exact entries are not fixed by the statement: only 'a decision, and the same one for the same input' is asserted", "ClientIDs in the lists are lower-case (the extractor lower-cases the client's spelling)"},
-	FaultKinds:  []string{"live_access_update"},
-	ProbeNames:  []string{"excluded_request", "served_request", "served_with_clientid", "excluded_by_name", "open_shape", "excluded_udp", "excluded_tcp", "excluded_tls", "excluded_https", "excluded_quic", "excluded_dnscrypt", "default_blocked_hosts"},
+	FaultKinds:  []string{"live_access_update", "rejected_access_update", "restart_from_written_config", "reconfigure", "unrelated_config_write"},
+	ProbeNames:  []string{"excluded_request", "served_request", "served_with_clientid", "excluded_by_name", "open_shape", "excluded_udp", "excluded_tcp", "excluded_tls", "excluded_https", "excluded_quic", "excluded_dnscrypt", "default_blocked_hosts",
+		"default_blocked_hosts_reported", "invalid_dup_rejected", "invalid_intersect_rejected", "invalid_unparsable_rejected", "invalid_undecodable_rejected",
+		"restart_right_after_update", "restart_after_rejected_update", "reconfigure_after_rejected_update", "write_after_rejected_update",
+		"served_after_restart", "excluded_after_restart", "served_after_rejected_update", "excluded_after_rejected_update"},
 }
